@@ -104,7 +104,7 @@ func lexCmp(a, b []string) int {
 	return 0
 }
 
-var c03B = []string{"0", "1", "2", "9", "10", "11", "99", "100", "999", "1000", "65535", "2147483647"}
+var c03B = []string{"0", "1", "2", "9", "10", "11", "99", "100", "999", "1000", "65535", "65536", "65537", "131072", "2147483647"}
 
 func c03Vals(lvl, k int) []string {
 	if lvl == 0 {
@@ -112,7 +112,7 @@ func c03Vals(lvl, k int) []string {
 		case k <= 2:
 			return c03B
 		case k == 3:
-			return []string{"0", "1", "9", "10", "100", "1000", "2147483647"}
+			return []string{"0", "1", "9", "10", "100", "1000", "65536", "2147483647"}
 		default:
 			return []string{"0", "1", "10"}
 		}
